@@ -37,8 +37,8 @@ META = {
         "R1: each statement of the heading code that constructs nodes.section, calls update_section_level_state or stores current_node is reached only under branch "
         "facts (of its own function and of every call site up to render_heading) that imply 'current node is a document/section or equals "
         "md_env[temp_root_node]'. The facts are read as a propositional formula over the atoms isinstance(current_node, C) (with the docutils class hierarchy "
-        "read from the parsed sibling source), current_node ==/is temp root, 'a temp root is set'; single-assignment locals and boolean predicate helpers "
-        "(`return <test>`) are expanded; implications are decided by truth table. Conversely the rubric branch is reached only under 'neither document nor section'. "
+        "read from the parsed sibling source), current_node ==/is temp root, 'a temp root is set'; single-assignment locals (also as operands of the comparisons, e.g. the temp root fetched into a local) and "
+        "boolean predicate helpers (`return <test>`) are expanded; implications are decided by truth table. Conversely the rubric branch is reached only under 'neither document nor section'. "
         "Nobody outside the heading code constructs nodes.section in the rendering modules or calls the level-state update. "
         "R2: from the rubric construction (in render_heading or a helper) to the exit there is no write to the level map, no level-state update and no direct "
         "current_node store, also not in the directly called renderer methods; current_node_context saves current_node before its yield and restores the saved "
@@ -47,7 +47,8 @@ META = {
         "R3 (update_section_level_state): every definition of the parent level that can reach the parent lookup is either max over the open levels strictly below "
         "the new level (deeper levels are still open at that point: a filter such as != or <= is a violation) or the shortcut level - 1 used only where that level "
         "is known to be open; the section is attached exactly once on every path to map[parent]; no use of the level parameter is reached by a definition that replaces it by another linear quantity; the map operations (map[level]=section, "
-        "filtering dict comprehension, removal loops over a key range or over a copy of the keys) are simulated over the key classes {<L, =L, >L} and must leave "
+        "filtering dict comprehension, removal loops over a key range or over a copy of the keys, counting while-loops - a walk `while level+k in map` stops at the "
+        "first level that is not open and is a violation because levels may be skipped) are simulated over the key classes {<L, =L, >L} and must leave "
         "(ancestors kept, own level = new section, deeper levels dropped) - range bounds are level+c, constants or max(open levels)+c, and a constant bound only "
         "covers the deeper levels if the heading level is statically bounded, which it is not once the heading offset is added; the MD_HEADING_NON_CONSECUTIVE "
         "warning (one or several sites) is emitted at most once per path and, evaluated on the grid parent 0..8 x skip 1..12, exactly when skip >= 2 - leaves of "
@@ -338,7 +339,7 @@ class Guard:
                     return ("or", [("atom", ("inst", c)) for c in classes])
             return self._opaque(e)
         if isinstance(e, ast.Compare) and len(e.ops) == 1:
-            l, r, op = e.left, e.comparators[0], e.ops[0]
+            l, r, op = self._deref(e.left), self._deref(e.comparators[0]), e.ops[0]
             for a, b in ((l, r), (r, l)):
                 if is_self_attr(a, "current_node") and is_temp_root_lookup(b):
                     if isinstance(op, (ast.Eq, ast.Is)):
@@ -352,6 +353,14 @@ class Guard:
                         return ("not", ("atom", A_HASROOT))
             return self._opaque(e)
         return self._opaque(e)
+
+    def _deref(self, e: ast.expr) -> ast.expr:
+        """A local that was assigned once, in the same block and with only local assignments in between, stands for its value."""
+        if isinstance(e, ast.Name):
+            v = single_def(self.fi, e.id)
+            if v is not None and not isinstance(v, ast.Name) and self._def_still_valid(e):
+                return v
+        return e
 
     def _def_still_valid(self, use: ast.Name) -> bool:
         """The single definition and the use sit in one block with only local-name assignments between them."""
@@ -1249,6 +1258,44 @@ def _loop_op(st: ast.For, p_lvl: str):
     return ("remove_if", rel, f"remove keys {REL_TXT[rel]} level")
 
 
+def _while_op(st: ast.While, upd: FunctionInfo, p_lvl: str):
+    """``c = level + a`` ... ``while <test on c>: remove map[c]; c += 1`` -> (kind, payload, text)."""
+    t = st.test
+    if st.orelse or not (isinstance(t, ast.Compare) and len(t.ops) == 1 and isinstance(t.left, ast.Name)):
+        raise Unsupported(f"removal loop `while {short(t, 40)}` is not a test on a running level")
+    c = t.left.id
+    defs = name_assignments(upd, c)
+    inits = [d for d in defs if isinstance(d, ast.Assign) and d in upd.node.body and upd.node.body.index(d) < upd.node.body.index(st)]
+    steps = [d for d in defs if isinstance(d, ast.AugAssign) and d in st.body]
+    if len(defs) != 2 or len(inits) != 1 or len(steps) != 1 or not (isinstance(steps[0].op, ast.Add) and isinstance(steps[0].value, ast.Constant) and steps[0].value.value == 1):
+        raise Unsupported(f"running level `{c}` of the removal loop is not `{c} = level + a` before the loop and `{c} += 1` inside it")
+    start = lin(inits[0].value, p_lvl, "\0")
+    if start is None or start[0] != 1 or start[1] != 0:
+        raise Unsupported(f"removal loop starts at `{short(inits[0].value, 30)}`, not at level + a")
+    rest = [x for x in st.body if x is not steps[0]]
+    if len(rest) != 1 or st.body.index(rest[0]) > st.body.index(steps[0]):
+        raise Unsupported("removal loop body is not `remove map[c]; c += 1`")
+    inner, guard = rest[0], None
+    if isinstance(inner, ast.If) and not inner.orelse and len(inner.body) == 1:
+        guard, inner = inner.test, inner.body[0]
+    how = _removal_of(inner, c)
+    if how is None:
+        raise Unsupported(f"loop body `{short(inner, 50)}` is not a removal of map[{c}]")
+    member_guard = guard is not None and isinstance(guard, ast.Compare) and len(guard.ops) == 1 and isinstance(guard.ops[0], ast.In) and isinstance(guard.left, ast.Name) and guard.left.id == c and is_attr(guard.comparators[0], LEVEL_MAP)
+    if guard is not None and not member_guard:
+        raise Unsupported(f"guard `{short(guard, 40)}` inside the removal loop")
+    if isinstance(t.ops[0], ast.In) and _map_keys_iter(t.comparators[0]) == "keys":
+        return ("remove_run", start[2], f"remove level{start[2]:+d}, level{start[2] + 1:+d}, ... while that level is open")
+    if isinstance(t.ops[0], (ast.Lt, ast.LtE)):
+        if how == "raises" and not member_guard:
+            raise Unsupported("del / pop without default in a counting loop raises KeyError for a level that is not open")
+        hk, hc = _range_bound(t.comparators[0], p_lvl)
+        if isinstance(t.ops[0], ast.LtE):
+            hc += 1
+        return ("remove_range", (("L", start[2]), (hk, hc)), f"remove keys from level{start[2]:+d} while {unparse(t)}")
+    raise Unsupported(f"removal loop condition `{short(t, 40)}` not understood")
+
+
 def _map_ops(upd: FunctionInfo, cfg, p_sec: str, p_lvl: str) -> list[tuple[str, object, ast.AST, str]]:
     body = upd.node.body
     ops: list[tuple[str, object, ast.AST, str]] = []
@@ -1264,6 +1311,11 @@ def _map_ops(upd: FunctionInfo, cfg, p_sec: str, p_lvl: str) -> list[tuple[str, 
         if isinstance(top, ast.For):
             done.add(id(top))
             kind, payload, text = _loop_op(top, p_lvl)
+            ops.append((kind, payload, top, text))
+            continue
+        if isinstance(top, ast.While):
+            done.add(id(top))
+            kind, payload, text = _while_op(top, upd, p_lvl)
             ops.append((kind, payload, top, text))
             continue
         if top is not cfg.stmt_of(n) or isinstance(top, (ast.If, ast.While, ast.Try, ast.With)):
@@ -1318,6 +1370,18 @@ def _simulate(ops, level_bound) -> tuple[dict[str, str], list[str]]:
             for c, kept in zip(("lt", "eq", "gt"), KEEPS[rel]):
                 if not kept:
                     drop(c, True)
+        elif kind == "remove_run":
+            a = payload
+            reasons.append(
+                f"the loop removes level{a:+d}, level{a + 1:+d}, ... only while each is open and stops at the first level that is not: heading levels may be skipped, "
+                "so open levels above such a gap are never removed"
+            )
+            if a <= 0:
+                drop("eq", stored)
+                reasons.append(f"the loop starts at level{a:+d}: the entry of the new level itself is removed")
+                if a < 0:
+                    drop("lt", False)
+            drop("gt", False)
         else:
             (lk, lc), (hk, hc) = payload
             if lk == "M":
@@ -2350,6 +2414,13 @@ def mutants(corpus: Corpus):
             ("c05-prune-range-includes-own-level", lv_, f"max(self.{LEVEL_MAP}) + 1"),
         ):
             add(mid, "C05.R3", base, prune, f"for open_level in range({lo}, {hi}):\n{ind}    self.{LEVEL_MAP}.pop(open_level, None)", expect="level map after the update")
+    if prune is not None:
+        # class: pruning walks up from the new level and stops at the first level that is not open
+        ind = " " * prune.col_offset
+        lv_ = upd.params[2]
+        for mid, start in (("c05-prune-stops-at-first-gap", f"{lv_} + 1"), ("c05-prune-walk-starts-at-own-level", lv_)):
+            add(mid, "C05.R3", base, prune,
+                f"deeper = {start}\n{ind}while deeper in self.{LEVEL_MAP}:\n{ind}    del self.{LEVEL_MAP}[deeper]\n{ind}    deeper += 1", expect="level map after the update")
     store = find_node(upd, lambda n: isinstance(n, ast.Assign) and isinstance(n.targets[0], ast.Subscript) and is_self_attr(n.targets[0].value, LEVEL_MAP))
     add("c05-own-level-not-recorded", "C05.R3", base, store, "pass", expect="level map after the update")
     att = find_node(upd, lambda n: isinstance(n, ast.Call) and isinstance(n.func, ast.Attribute) and n.func.attr == "append" and n.args and isinstance(n.args[0], ast.Name) and n.args[0].id == upd.params[1])
